@@ -15,6 +15,31 @@ pub struct SolverParams<F: Float> {
     pub shrinking: bool,
 }
 
+#[cfg(linfa_verif)]
+thread_local! {
+    /// Verification hook: number of events emitted by the solve() running on this thread
+    /// (the log of one run is capped, a run may take millions of iterations).
+    static VERIF_EVENTS: std::cell::Cell<usize> = std::cell::Cell::new(0);
+}
+
+/// Fixed-point rendering of a float for the verification hook (integer-only JSON).
+#[cfg(linfa_verif)]
+fn verif_fx<F: Float>(v: F, scale: f64) -> String {
+    let v = v.to_f64().unwrap_or(f64::NAN);
+    if v.is_nan() {
+        "\"nan\"".to_string()
+    } else if v.is_infinite() {
+        (if v > 0.0 { "\"+inf\"" } else { "\"-inf\"" }).to_string()
+    } else {
+        let x = (v * scale).round();
+        if x.abs() >= 1073741824.0 {
+            "\"big\"".to_string()
+        } else {
+            format!("{}", x as i64)
+        }
+    }
+}
+
 /// Status of alpha variables of the solver
 #[derive(Clone, Debug, PartialEq)]
 struct Alpha<F: Float> {
@@ -186,6 +211,47 @@ impl<'a, F: Float, K: 'a + Permutable<F>> SolverState<'a, F, K> {
         self.bounds[idx]
     }
 
+    /// Verification hook: log the per-position solver state (`as` = active_set, `y` = targets,
+    /// `b` = bounds, `p` = linear term, `a` = alpha, `g` = gradient, `ki` = kernel indices) and,
+    /// for the write-back event, the un-permuted solution `out`.
+    #[cfg(linfa_verif)]
+    fn verif_emit(&self, ev: &str, out: Option<&[F]>) {
+        if !linfa::verif_hook::enabled() {
+            return;
+        }
+        // at most 256 shrink/unshrink events per run; the write-back event is always logged
+        let count = VERIF_EVENTS.with(|c| {
+            c.set(c.get() + 1);
+            c.get()
+        });
+        if count > 256 && out.is_none() {
+            return;
+        }
+        fn join<T, I: Iterator<Item = T>>(it: I, f: impl Fn(T) -> String) -> String {
+            it.map(f).collect::<Vec<_>>().join(",")
+        }
+        let mut body = format!(
+            "\"ev\":\"{}\",\"n\":{},\"nactive\":{},\"as\":[{}],\"y\":[{}],\"b\":[{}],\"p\":[{}],\"a\":[{}],\"g\":[{}],\"ki\":[{}]",
+            ev,
+            self.ntotal(),
+            self.nactive,
+            join(self.active_set.iter(), |x| x.to_string()),
+            join(self.targets.iter(), |x| (*x as usize).to_string()),
+            join(self.bounds.iter(), |x| verif_fx(*x, 1e6)),
+            join(self.p.iter(), |x| verif_fx(*x, 1e6)),
+            join(self.alpha.iter(), |x| verif_fx(x.val(), 1e6)),
+            join(self.gradient.iter(), |x| verif_fx(*x, 1e4)),
+            join(self.kernel.verif_indices().into_iter(), |x| x.to_string()),
+        );
+        if let Some(out) = out {
+            body.push_str(&format!(
+                ",\"out\":[{}]",
+                join(out.iter(), |x| verif_fx(*x, 1e6))
+            ));
+        }
+        linfa::verif_hook::emit(&body);
+    }
+
     /// Swap two variables
     pub fn swap(&mut self, i: usize, j: usize) {
         self.gradient.swap(i, j);
@@ -235,6 +301,9 @@ impl<'a, F: Float, K: 'a + Permutable<F>> SolverState<'a, F, K> {
                 }
             }
         }
+
+        #[cfg(linfa_verif)]
+        self.verif_emit("smo.unshrink", None);
     }
 
     pub fn update(&mut self, working_set: (usize, usize)) {
@@ -779,6 +848,8 @@ impl<'a, F: Float, K: 'a + Permutable<F>> SolverState<'a, F, K> {
     }
 
     pub fn solve(mut self) -> Svm<F, F> {
+        #[cfg(linfa_verif)]
+        VERIF_EVENTS.with(|c| c.set(0));
         let mut iter = 0;
         let max_iter = if self.targets.len() > usize::MAX / 100 {
             usize::MAX
@@ -794,6 +865,8 @@ impl<'a, F: Float, K: 'a + Permutable<F>> SolverState<'a, F, K> {
                 counter = usize::min(self.ntotal(), 1000);
                 if self.params.shrinking {
                     self.do_shrinking();
+                    #[cfg(linfa_verif)]
+                    self.verif_emit("smo.shrink", None);
                 }
             }
 
@@ -854,6 +927,8 @@ impl<'a, F: Float, K: 'a + Permutable<F>> SolverState<'a, F, K> {
         // the alpha values are already in the same number as the samples and
         // they already represent their respective weights
 
+        #[cfg(linfa_verif)]
+        self.verif_emit("smo.writeback", Some(&alpha));
         // Computing the final alpha vaues for regression
         if self.ntotal() > self.dataset.len_of(Axis(0)) {
             for i in 0..self.dataset.len_of(Axis(0)) {
